@@ -93,7 +93,13 @@ RULE = ("(1) every one of the 2400 one-argument configurations (argument kind - 
         "'-' in the working directory; a FIFO as argument and inside a tree; 60 nested directories; names with a tab "
         "or a leading '-'; '.', './', '..' with the working directory inside the object, a path through a link to the "
         "root, two leading slashes; 40 (thorough 150) arguments and no argument; and HISTORIES: two invocations in one "
-        "process with the file / directory / link changed (or not) in between - nothing may be remembered")
+        "process with the file / directory / link changed (or not) in between - nothing may be remembered; "
+        "(8) the dictionary of the source under test (harness/gitobj_common.source_tokens: string constants of "
+        "swh/model/*.py such as option names, 'swh:', 'swh:1:dir:', '.git', 'HEAD', 'refs/tags/', object type names) is "
+        "used for arguments that are not paths (the token, token:x, https://token/x, spliced into a missing path), for "
+        "the NAMES of fixture files / directories / links at the top and inside trees (every third fixture set), for "
+        "--exclude patterns (token, *token*, token*) and for --verify values built around a token (swh:1:<tok>:<hash>, "
+        "<id><tok>, ...: exit 0 / 1 / usage error as the library's own SWHID parser classifies the value)")
 TRUSTED = ["click option parsing, os.path.*, os.scandir, dulwich and git are modelled by a table per argument kind "
            "(model/Cli.v: isfile/isdir/islink/lstat/stat/urlparse scheme/urlparse raises/Origin refuses/is-a-git-repository), "
            "not verified; which kind a string argument has is decided by calling urlparse and model.Origin on it",
@@ -184,6 +190,21 @@ def table_row(cfg):
         for c, r in zip(cfgs, resp):
             _TABLE[tuple(c)] = parse_row(r)
     return _TABLE[tuple(cfg)]
+
+
+# ------------------------------------------------------------------ the dictionary of the source under test
+def name_tokens():
+    """literals harvested from swh/model/*.py of the repository under test (option names, 'swh:', '.git', 'HEAD',
+    object type names ...) that can be a file name: no '/', no NUL, not '.' / '..' / '-', not 'objects' (a plain
+    directory must not start to look like a bare repository)"""
+    from . import gitobj_common as G
+    return [t for t in G.source_tokens("bytes")
+            if b"/" not in t and b"\x00" not in t and t not in (b".", b"..", b"-", b"objects") and len(t) <= 30]
+
+
+def str_tokens():
+    from . import gitobj_common as G
+    return [t for t in G.source_tokens("str") if "\x00" not in t]
 
 
 # ------------------------------------------------------------------ arguments that are not existing paths
@@ -316,6 +337,16 @@ def _git(repo, *args):
     return p.stdout
 
 
+def _tokname(rng, taken):
+    """a harvested literal as a name, made unique with a counter"""
+    t = rng.choice(name_tokens())
+    n, k = t, 0
+    while n in taken:
+        k += 1
+        n = t + str(k).encode()
+    return n
+
+
 def _rname(rng, nonutf8, prefix=b""):
     alphabet = b"abcdefghijklmnopqrstuvwxyzABCXYZ0123456789_.+ \t"
     n = rng.randrange(1, 9)
@@ -338,7 +369,7 @@ def _rdata(rng):
     return ("text-%d" % rng.randrange(10 ** 9)).encode()
 
 
-def _populate(rng, top, nonutf8, tag=b"A"):
+def _populate(rng, top, nonutf8, tag=b"A", toknames=False):
     """nested directories, identical files, an inner symlink, an executable, an empty directory; always a
     directory whose name starts with b'sub' (the exclusion pattern of the one-argument table is sub*), and - for
     the invocations with several arguments - a directory only_<tag>* at the top and one inside sub*, so that a
@@ -349,6 +380,10 @@ def _populate(rng, top, nonutf8, tag=b"A"):
 
     def fresh(prefix=b""):
         while True:
+            if toknames and prefix == b"" and rng.random() < 0.6:
+                n = _tokname(rng, names)      # e.g. a file named HEAD, a directory named .git or --help or swh:1:dir:
+                names.add(n)
+                return n
             n = _rname(rng, nonutf8, prefix)
             if n not in names and not (prefix == b"" and n.startswith(b"sub")):
                 names.add(n)
@@ -398,8 +433,14 @@ def build_fixture(fxspec):
     try:
         used = set()
 
+        toknames = bool(fxspec.get("toknames"))
+
         def top(prefix):
             while True:
+                if toknames and prefix in (b"f", b"-f", b"t", b"lf", b"ld", b"u", b"g", b"e0", b"e1") and rng.random() < 0.7:
+                    n = _tokname(rng, used | {b"-"})
+                    used.add(n)
+                    return os.path.join(root, n)
                 n = _rname(rng, False, prefix)
                 if nonutf8_arg:
                     n += rng.choice([b"\xff", b"\xe9t\xe9", b"\xc3\x28", b"\x80x"])
@@ -412,13 +453,13 @@ def build_fixture(fxspec):
         if rng.random() < 0.3:
             os.chmod(fx["file"], 0o755)
         fx["dir"] = top(b"t")
-        fx["dir_sub"], fx["dir_other"] = _populate(rng, fx["dir"], nonutf8, b"A")
+        fx["dir_sub"], fx["dir_other"] = _populate(rng, fx["dir"], nonutf8, b"A", toknames)
         fx["linkfile"] = top(b"lf")
         # relative or absolute link text
         tgt = os.path.basename(fx["file"]) if rng.random() < 0.7 else fx["file"]
         os.symlink(tgt, fx["linkfile"])
         fx["linkdir_target"] = top(b"lt")
-        _populate(rng, fx["linkdir_target"], nonutf8, b"B")
+        _populate(rng, fx["linkdir_target"], nonutf8, b"B", toknames)
         fx["linkdir"] = top(b"ld")
         tgt = os.path.basename(fx["linkdir_target"]) if rng.random() < 0.7 else fx["linkdir_target"]
         os.symlink(tgt, fx["linkdir"])
@@ -448,7 +489,7 @@ def build_fixture(fxspec):
             fx[kd], fx[kd + "2"] = rng.sample(by_kind[kd], 2)
         fx["url3"] = rng.choice(by_kind["url"])
         fx["dir2"] = top(b"u")
-        fx["dir2_sub"], _ = _populate(rng, fx["dir2"], nonutf8, b"C")
+        fx["dir2_sub"], _ = _populate(rng, fx["dir2"], nonutf8, b"C", toknames)
         # git repository (non bare): two commits, a branch, a lightweight and an annotated tag, a tag of a tree
         repo = top(b"g")
         os.mkdir(repo)
@@ -641,6 +682,8 @@ EXCLUDE_SETS = [["sub*"], ["sub*", "sub*"], ["nomatch*", "sub*", "*.c"], ["", "s
 
 
 def fx_exclude(fx):
+    if fx["spec"].get("xtokens"):
+        return ["sub*"] + list(fx["spec"]["xtokens"])       # patterns built around literals of the source under test
     return EXCLUDE_SETS[fx["spec"].get("xset", 0) % len(EXCLUDE_SETS)]
 
 
@@ -1109,6 +1152,8 @@ RAW_SAME = [(["--type=content", "<file>"], ["-t", "content", "<file>"]), (["-tco
             (["-r", "-r", "<dir>"], ["--recursive", "<dir>"]), (["<file>", "-t", "content", "<dir>"], ["-t", "content", "<file>", "<dir>"]),
             (["--", "<file>"], ["<file>"]), (["-xsub*", "<dir>"], ["--exclude=sub*", "<dir>"])]
 RAW_HELP = [["-h"], ["--help"], ["-h", "<file>"], ["<file>", "--help"]]
+RAW_VERIFY_SHAPES = ["<tok>", "swh:1:<tok>:<hash>", "<id><tok>", "<tok><id>", "swh:<tok>:cnt:<hash>", "<tok>:1:cnt:<hash>",
+                     "swh:1:cnt:<tok>"]
 
 
 def impl_raw(case):
@@ -1127,6 +1172,25 @@ def impl_raw(case):
             out.append(a)
         return out
     raw = case["raw"]
+    if raw["expect"] == "verify":
+        # --verify <value built around a literal of the source> <object>: the library's own parser says whether the
+        # value is a core SWHID; if it is, the command compares (exit 0 / 1), if not it is a usage error
+        from swh.model.swhids import CoreSWHID
+        from swh.model.exceptions import ValidationError
+        obj = raw["args"][-1]
+        value = raw["args"][1].replace("<tok>", raw["tok"]).replace("<hash>", good.split(":")[3]).replace("<id>", good)
+        own = {"<file>": good, "<dir>": fx["ids"]["dir:dir:0"], "<gitrepo>": fx["ids"]["dir:gitrepo:0"]}[obj]
+        sub["<gitrepo>"] = os.fsdecode(fx["gitrepo"])
+        run = run_inprocess(["-v", value, sub[obj]], None)
+        try:
+            want = 0 if str(CoreSWHID.from_string(value)) == own else 1
+        except ValidationError:
+            want = 2
+        res = {"run": run, "args": ["-v", value, obj], "raw_diff": None}
+        if run.get("exc") or run["exit"] != want or run["ordered"]:
+            res["raw_diff"] = "exit code %s (exception %s), expected %s (%s)" % (
+                run["exit"], run.get("exc"), want, {0: "match", 1: "mismatch", 2: "usage error: not a core SWHID"}[want])
+        return res
     run = run_inprocess(inst(raw["args"]), None)
     res = {"run": run, "args": raw["args"], "raw_diff": None}
     if run.get("exc"):
@@ -1597,6 +1661,11 @@ def _pick_patterns(rng, refs, n):
         pats.append(rng.choice(SPECIFIC[rng.choice(later)] if later[0] != dirs[0] or rng.random() < 0.5 else GENERIC[:1]))
     while len(pats) < n:
         src = rng.random()
+        if src < 0.15:
+            # built around a literal of the source under test: the token, *token*, token*
+            t = rng.choice(str_tokens())
+            pats.append(rng.choice([t, "*" + t + "*", t + "*", "*/" + t]))
+            continue
         if src < 0.4 and dirs:
             pats.append(rng.choice(SPECIFIC[dirs[0]]))          # matches in the first, mostly not in the others
         elif src < 0.7 and dirs:
@@ -1706,6 +1775,10 @@ def gen(rng, tier):
         fx["gitstate"] = rng.choice(GIT_STATES) if tier == "quick" else GIT_STATES[s % len(GIT_STATES)]
         fx["badrefs"] = "empty" if s % 3 != 2 else rng.choice(["garbage", "truncated"])
         fx["xset"] = rng.randrange(len(EXCLUDE_SETS))       # which patterns `exclude = yes` stands for in the table
+        if s % 3 == 0:
+            fx["toknames"] = 1           # files / directories / links named after literals of the source under test
+            toks = str_tokens()
+            fx["xtokens"] = [rng.choice([t, "*" + t + "*", t + "*"]) for t in rng.sample(toks, 2)]
         if s % 2 == 1:
             fx["dashnames"] = 1          # the file argument's name starts with '-'
         if s % 4 == 1 or (tier == "thorough" and s % 4 == 3):
@@ -1800,6 +1873,12 @@ def gen_raw_hist(rng, fx, tier, s):
         cases += [{"fx": fx, "raw": {"args": a, "expect": "usage"}} for a in RAW_USAGE]
         cases += [{"fx": fx, "raw": {"args": a, "expect": "help"}} for a in RAW_HELP]
         cases += [{"fx": fx, "raw": {"args": a, "expect": b}} for a, b in RAW_SAME]
+        toks = str_tokens()
+        for t in ["cnt", "dir", "snp", "rev", "rel", "ori"] + (rng.sample(toks, 12) if tier == "quick" else toks):
+            for shape in (RAW_VERIFY_SHAPES if t in ("cnt", "dir", "snp", "rev", "rel", "ori") or tier == "thorough"
+                          else rng.sample(RAW_VERIFY_SHAPES, 2)):
+                cases.append({"fx": fx, "raw": {"args": ["-v", shape, rng.choice(["<file>", "<dir>", "<gitrepo>"])],
+                                                "expect": "verify", "tok": t}})
     for kind in ("file", "dir", "linkfile", "linkdir"):
         natural = "content" if kind in ("file", "linkfile") else "directory"
         for change in ("rewrite", "same"):
@@ -1816,6 +1895,11 @@ def gen_strings(rng, fx, tier):
     """arguments that name no existing path, one by one: every family of string_pool() plus random short strings, under
     --type auto and every explicit type, a few option combinations each, a few through the real subprocess"""
     strings = string_pool(rng) + random_strings(rng, 25 if tier == "quick" else 300)
+    # the literals of the source under test, alone, as a scheme, as a host, spliced into a path that does not exist
+    from . import gitobj_common as G
+    toks = str_tokens()
+    for t in (rng.sample(toks, 20) if tier == "quick" else toks):
+        strings += [t, t + ":x", "https://" + t + "/x", G.splice_token(rng, "no/such/path%d" % rng.randrange(1000), "str")]
     combos = [(1, 1, 0, "none", 0), (0, 0, 1, "nonmatch", 1), (1, 0, 0, "match", 0), (0, 1, 1, "none", 1)]
     cases, subs = [], []
     for st in strings:
@@ -1849,7 +1933,8 @@ def nontrivial(c):
 
 def classify(c):
     if "raw" in c:
-        return ["raw-invocation", "raw:" + (c["raw"]["expect"] if isinstance(c["raw"]["expect"], str) else "same-as")]
+        return ["raw-invocation", "raw:" + (c["raw"]["expect"] if isinstance(c["raw"]["expect"], str) else "same-as")] + (
+            ["raw:verify-token=" + c["raw"]["tok"]] if c["raw"].get("tok") in ("cnt", "dir", "snp", "rev", "rel", "ori") else [])
     if "hist" in c:
         return ["history", "history:%s:%s" % (c["hist"]["kind"], c["hist"]["change"])]
     if "multi" in c:
